@@ -366,7 +366,10 @@ def docstrings():
     # documented names include members that are aliases nobody can resolve (`thing`: import of a missing module, `P`,
     # `ospath`: prelude imports of modules that are not loaded)
     item = st.tuples(st.sampled_from(PARAM_NAMES + ("x", "A", "f", "thing", "P", "ospath")), st.integers(0, len(DOC_ANNOTATIONS) - 1), st.integers(0, len(DOC_DESCS) - 1)).map(list)
-    section = st.tuples(st.integers(0, len(DOC_KINDS) - 1), st.lists(item, min_size=1, max_size=2)).map(list)
+    # parameters sections are drawn more often: the parsers look the documented parameters up in the signature of the
+    # function, or of the class (`Class.parameters`: `__init__` of the class or of a base, through the MRO)
+    kinds = st.sampled_from((0, 0, 0, *range(1, len(DOC_KINDS))))
+    section = st.tuples(kinds, st.lists(item, min_size=1, max_size=2)).map(list)
     # "lead": 0 text right after the quotes; 1 text on the next line; 2 next line and every further line indented deeper
     full = st.fixed_dictionaries(
         {"sum": st.integers(0, len(DOC_SUMMARIES) - 1), "sections": st.lists(section, max_size=3), "lead": st.sampled_from((0, 0, 1, 2))},
@@ -724,7 +727,8 @@ class _ModRenderer:
     def _base(self, b) -> str | None:
         if b[0] == "expr":
             return expr_text(b[1])
-        pool = self.classes + ["Exception", "dict"] if self.importable else self.classes + ["Exception", "Missing", "typing.Generic[T]"]
+        # classes defined earlier in the module count double: a loaded base class is what makes MRO-dependent code run
+        pool = self.classes * 2 + (["Exception", "dict"] if self.importable else ["Exception", "Missing", "typing.Generic[T]"])
         return pool[b[1] % len(pool)]
 
     def body(self, indent: int, stmts, in_class: str | None) -> None:
@@ -800,7 +804,9 @@ class _ModRenderer:
             _CTX["params"] = [x[0] for x in list(p["po"]) + list(p["pk"]) + ([p["va"]] if p["va"] else []) + list(p["ko"]) + ([p["vk"]] if p["vk"] else [])]
             for sa in spec["selfattrs"]:
                 mark = len(s.lines)
-                self.attr(indent + 1, ["attr", sa[0], sa[1], sa[2], sa[3]], target="self." + sa[0])
+                # known finding init-forwarded-annotation: no name shared with a class-level (annotated) attribute
+                suffix = "_i" if "init-forwarded-annotation" in _CTX["steer"] else ""
+                self.attr(indent + 1, ["attr", sa[0], sa[1], sa[2], sa[3]], target="self." + sa[0] + suffix)
                 wrote = wrote or len(s.lines) > mark
             for inner in spec.get("inner", ()):
                 if "init-param-names" in _CTX["steer"] and inner[1] in EXPR_NAMES:
